@@ -158,6 +158,20 @@ def main():
                     broken_detail.setdefault("build:" + f, "")
             if not failed and not upstream_fail:
                 upstream_fail = True
+            # a failing helper lemma of the Props file is still added to the environment (as an unproved declaration), so the theorems that use it
+            # compile without an error of their own: everything that mentions a failed declaration -- transitively -- is not proved either
+            if failed:
+                ptxt = props_file.read_text().split("\n")
+                body = {name: "\n".join(ptxt[s - 1:e]) for name, s, e in thms}
+                grew = True
+                while grew:
+                    grew = False
+                    for name, txt_ in body.items():
+                        if name in failed:
+                            continue
+                        if any(re.search(r"(?<![\w.])" + re.escape(f.split(".")[-1]) + r"(?![\w'])", txt_) for f in failed):
+                            failed.add(name)
+                            grew = True
             broken_detail["lake"] = out[-3000:]
         # the model driver is broken only when Driver.lean itself (or something it imports: Basic / Model / Spec) failed -- a failing
         # Generated / Lemmas / Props module (e.g. Lemmas/SnapDriver.lean) does not touch it
